@@ -29,7 +29,13 @@ namespace BitSerializer
 			auto LastIt = cont.begin();
 			for (auto it = LastIt; it != cont.end() && !arrayScope.IsEnd(); ++it, ++loadedItems)
 			{
-				Serialize(arrayScope, *it);
+				if (!Serialize(arrayScope, *it))
+				{
+					// The previous content of container must not survive in an item which was not loaded
+					if constexpr (std::is_move_assignable_v<TValue>) {
+						*it = TValue();
+					}
+				}
 				LastIt = it;
 			}
 			// Load all left items
